@@ -154,6 +154,7 @@ thread_local! {
 }
 
 pub struct Ctx {
+    pub t0: std::time::Instant,
     pub gates: RefCell<HashMap<i64, oneshot::Sender<Outcome>>>,
     pub armed: RefCell<VecDeque<Outcome>>,
     pub armed_ctl: RefCell<VecDeque<Outcome>>,
@@ -173,6 +174,9 @@ impl Ctx {
             eprintln!("{:?} {}", std::time::SystemTime::now().duration_since(std::time::UNIX_EPOCH).unwrap().as_millis() % 100000, ev.json());
         }
         EVENTS.with(|e| e.borrow_mut().push(ev));
+    }
+    pub fn elapsed_ms(&self) -> i64 {
+        self.t0.elapsed().as_millis() as i64
     }
     fn new_h(&self) -> i64 {
         let h = self.next_h.get() + 1;
@@ -480,7 +484,17 @@ async fn ctl_common(ctx: &Rc<Ctx>, h: i64, c: &Control<TestErr>) -> (bool, Outco
         }
         Control::Stop(r) => {
             let (k, x) = stop_class(r);
-            ctx.emit(Ev::new("ctl").k(k).s(h).x(x));
+            // r: 1 = keep-alive timeout, 2 = read timeout, 3 = undecodable input, 0 = other
+            let code = match r {
+                Reason::Protocol(e) => match e.get_ref() {
+                    ntex_mqtt::error::ProtocolError::KeepAliveTimeout => 1,
+                    ntex_mqtt::error::ProtocolError::ReadTimeout => 2,
+                    ntex_mqtt::error::ProtocolError::Decode(_) => 3,
+                    _ => 0,
+                },
+                _ => 0,
+            };
+            ctx.emit(Ev::new("ctl").k(k).s(h).x(x).r(code).n(ctx.elapsed_ms()));
             let g = Guard { ctx: ctx.clone(), h, done: Cell::new(false) };
             let out = ctx.outcome(h, ctx.gate_stop.get(), true).await;
             g.done.set(true);
@@ -1816,6 +1830,13 @@ pub async fn run_conn(ctx: Rc<Ctx>, cmds: Vec<Value>) {
                 let open = ctx.gates.borrow().len();
                 ctx.emit(Ev::new("final").s(open as i64).n(unread as i64).r(rounds));
             }
+            "sleep" => {
+                // real time passes (C20 only): the runtime parks until the timer thread wakes it
+                let ms = c.get("ms").and_then(Value::as_i64).unwrap_or(1000) as u64;
+                ntex_util::time::sleep(ntex_util::time::Millis(ms as u32)).await;
+                peer.drain(&ctx);
+                ctx.emit(Ev::new("tick").n(ctx.elapsed_ms()));
+            }
             "mark" => {
                 // scenario marker for the monitors (what the generator injected)
                 let e: &'static str = match c.get("e").and_then(Value::as_str).unwrap_or("") {
@@ -1827,6 +1848,7 @@ pub async fn run_conn(ctx: Rc<Ctx>, cmds: Vec<Value>) {
                 ctx.emit(
                     Ev::new(e)
                         .n(c.get("n").and_then(Value::as_i64).unwrap_or(0))
+                        .r(c.get("r").and_then(Value::as_i64).unwrap_or(0))
                         .k(c.get("k").and_then(Value::as_str).unwrap_or("")),
                 );
             }
@@ -1951,6 +1973,7 @@ fn poll_slot(ctx: &Rc<Ctx>, snd: &mut Senders, s: i64) {
 pub fn new_ctx(cfg: Value) -> Rc<Ctx> {
     let gi = |k: &str, d: i64| cfg.get(k).and_then(Value::as_i64).unwrap_or(d);
     Rc::new(Ctx {
+        t0: std::time::Instant::now(),
         gates: RefCell::new(HashMap::new()),
         armed: RefCell::new(VecDeque::new()),
         armed_ctl: RefCell::new(VecDeque::new()),
